@@ -44,32 +44,48 @@ def run_fn(F, fn, args, table, extra_env=None, init_state=None, inline=None):
 
 
 def r1_less_than_n(ctx):
+    """K6 over the typed store: the answer is `value < n`, and afterwards the Progress<L> the state holds is value / n
+    (whichever accessor wrote it); without a Progress in the state the answer is the same and nothing is inserted"""
+    import statemodel
+    import initspec
     F = ctx.facts
     adt = CC + "LessThanN"
     fn = F.method(adt, "evaluate", COND)
     ni, li = F.field_index(adt, "n"), F.field_index(adt, "lens")
+    PROG = "mahf::state::common::Progress<"
     bad = []
+    cnt = 0
     for n, v in [(4.0, 3.0), (4.0, 4.0), (4.0, 5.0), (1.0, 0.0)]:
-        me = Sym("self", {ni: n, li: Sym("lens")})
-        sets = []
-
-        def setv(interp, env, f, args):
-            sets.append(((f.get("gargs") or [""])[0], args[1]))
-            return some(0.0)
-        paths = run_fn(F, fn, [me, Sym("problem"), Sym("state")], {"mahf::lens::Lens::get": ok(v), "mahf::state::registry::StateRegistry::set_value": setv})
-        for p in paths:
+        for present in (True, False):
+            me = Sym("self", {ni: n, li: Sym("lens")})
+            store = statemodel.Store(F, levels=1)
+            store.auto = lambda ty, present=present, store=store: ({0: statemodel.shaped(F, ty, "old-progress", store.heap)} if present else {}) if ty.startswith(PROG) else None
+            inl = lambda k: statemodel.inline(k) or k.startswith("mahf::problems::objective::") or k.startswith("<mahf::problems::objective::")
+            it = install(Interp(fn.body, chain(mk_oracle({"mahf::lens::Lens::get": ok(v)}), store, coll_oracle, std_oracle), [me, Sym("problem"), Sym("state")], facts=F, inline=inl, max_visits=10))
+            it.init_state = {}
+            store.install(it)
+            paths = it.run()
+            cnt += 1
+            where = "with a Progress in the state" if present else "without a Progress in the state"
+            if len(paths) != 1:
+                bad.append((v, n, "%s is not decided (%d paths)" % (where, len(paths))))
+                continue
+            p = paths[0]
             if p.end != "return" or not (isinstance(p.ret, Agg) and p.ret.variant == "Ok"):
-                bad.append((v, n, "does not return Ok (%s %s)" % (p.end, p.ret)))
+                bad.append((v, n, "%s does not return Ok (%s %s)" % (where, p.end, p.ret)))
                 continue
             if p.ret.fields[0] is not (v < n):
-                bad.append((v, n, "answers %s" % (p.ret.fields[0],)))
-        prog = [s for s in sets if s[0].startswith("mahf::state::common::Progress<")]
-        if len(prog) != len(paths) or any(s[1] != v / n for s in prog):
-            bad.append((v, n, "records progress %s instead of value/n = %s once per evaluation" % ([s[1] for s in sets], v / n)))
+                bad.append((v, n, "%s answers %s" % (where, p.ret.fields[0])))
+            tys = [ty for ty in store.types() if ty.startswith(PROG)]
+            held = [ty for ty in tys if store.holders(p, ty)]
+            if present:
+                got = [initspec.leaves(p.mstate, store.value(p, ty, 0)) for ty in held]
+                if got != [[v / n]]:
+                    bad.append((v, n, "%s leaves the progress %s instead of value/n = %s" % (where, got, v / n)))
+            elif held:
+                bad.append((v, n, "%s inserts one" % where))
+    ctx.count("less_than_n_scenarios", cnt)
     ctx.check(not bad, "C10.R1", fn.key, "true-iff-below-n", "value %s, n %s: LessThanN %s" % (bad[0] if bad else ("", "", "")), detail="value in {n-1, n, n+1}", loc=fn.loc())
-    ini = F.method(adt, "init", COND)
-    ins = [t["f"].get("gargs") for b, t in ini.body.calls() if t["f"].get("key") == "mahf::state::registry::StateRegistry::insert"]
-    ctx.check(ins == [["mahf::state::common::Progress<L>"]], "C10.R1", ini.key, "init-inserts-progress", "init inserts %s" % ins, loc=ini.loc())
 
 
 def r2_every_n(ctx):
@@ -90,20 +106,34 @@ def r2_every_n(ctx):
 
 
 def r3_optimum_reached(ctx):
+    """K6 over the typed store: the state holds a BestIndividual with an individual, an empty one, or none at all (the
+    real State::best_* sugar is followed); the answer is `a best value exists and is within epsilon of the optimum`"""
+    import statemodel
+    import c07
     F = ctx.facts
     adt = CC + "OptimumReached"
     fn = F.method(adt, "evaluate", COND)
     ei = F.field_index(adt, "epsilon")
     SO = "mahf::problems::objective::single::SingleObjective"
+    BESTT = "mahf::state::common::BestIndividual"
     bad = []
-    for best, opt, eps in [(None, 1.0, 0.5), (1.0, 1.0, 0.5), (1.5, 1.0, 0.5), (1.75, 1.0, 0.5), (0.0, 1.0, 0.0), (1.0, 1.0, 0.0), (1.25, 1.0, 0.0)]:
+    cnt = 0
+    for best, opt, eps in [(None, 1.0, 0.5), ("absent", 1.0, 0.5), (1.0, 1.0, 0.5), (1.5, 1.0, 0.5), (1.75, 1.0, 0.5), (0.0, 1.0, 0.0), (1.0, 1.0, 0.0), (1.25, 1.0, 0.0)]:
         me = Sym("self", {ei: eps})
-        table = {"mahf::state::State::best_objective_value": NONE if best is None else some(Agg("adt", SO, "SingleObjective", [best])),
-                 "mahf::problems::KnownOptimumProblem::known_optimum": Agg("adt", SO, "SingleObjective", [opt])}
-        want = best is not None and best <= opt + eps
-        for p in run_fn(F, fn, [me, Sym("problem"), Sym("state")], table):
+        ind = None if best in (None, "absent") else Agg("adt", c07.IND, "Individual", [Sym("s:best"), some(Agg("adt", SO, "SingleObjective", [best]))])
+        cellv = statemodel.ABSENT if best == "absent" else Agg("adt", BESTT, "BestIndividual", [some(ind) if ind is not None else NONE])
+        store = statemodel.Store(F, levels=1, auto=lambda ty, cellv=cellv: {0: cellv} if ty.startswith(BESTT + "<") else None)
+        table = {"mahf::problems::KnownOptimumProblem::known_optimum": Agg("adt", SO, "SingleObjective", [opt])}
+        want = ind is not None and best <= opt + eps
+        it = install(Interp(fn.body, chain(mk_oracle(table), store, coll_oracle, std_oracle), [me, Sym("problem"), Sym("state")], facts=F,
+                            inline=lambda k: statemodel.inline(k) or c07.INLINE(k), max_visits=10))
+        it.init_state = {}
+        store.install(it)
+        cnt += 1
+        for p in it.run():
             if p.end != "return" or not (isinstance(p.ret, Agg) and p.ret.variant == "Ok") or p.ret.fields[0] is not want:
-                bad.append((best, opt, eps, "%s %s (expected %s)" % (p.end, p.ret, want)))
+                bad.append(({None: "none recorded yet", "absent": "not tracked at all"}.get(best, best), opt, eps, "%s %s (expected %s)" % (p.end, p.ret, want)))
+    ctx.count("optimum_scenarios", cnt)
     ctx.check(not bad, "C10.R3", fn.key, "true-iff-best-within-epsilon", "best %s, optimum %s, epsilon %s: %s" % (bad[0] if bad else ("", "", "", "")), loc=fn.loc())
     fp = F.fn(adt + "::from_params")
     res = {}
@@ -119,12 +149,16 @@ def r3_optimum_reached(ctx):
 
 
 def r4_change_of(ctx):
+    """K6 over the typed store: the Previous<..> the state holds is empty / remembers `p`; the checker's answer is
+    scripted.  true iff nothing is remembered or the checker says `different`; afterwards the state remembers the current
+    value exactly when the answer was true (the value it last REPORTED), else still `p`."""
+    import statemodel
     F = ctx.facts
     adt = CC + "ChangeOf"
     fn = F.method(adt, "evaluate", COND)
     ci, li = F.field_index(adt, "checker"), F.field_index(adt, "lens")
+    PREV = CC + "Previous"
     bad = []
-    home = 10000
     for prev, equal in [(None, None), ("p", True), ("p", False)]:
         me = Sym("self", {ci: Sym("checker", boxlike=True), li: Sym("lens")})
         calls = []
@@ -132,17 +166,23 @@ def r4_change_of(ctx):
         def eqf(interp, env, f, args, equal=equal):
             calls.append([load(interp, env, a) for a in args[1:]])
             return equal if equal is not None else TOP
-        table = {"mahf::lens::LensRef::get_ref": ok(Sym("cur")), CC + "EqualityChecker::eq": eqf,
-                 "mahf::state::registry::StateRegistry::try_borrow_value_mut": ok(Ref(home, [], frame="root")),
-                 "mahf::state::registry::StateRegistry::borrow_value_mut": Ref(home, [], frame="root")}
-        paths = run_fn(F, fn, [me, Sym("problem"), Sym("state")], table, extra_env={home: NONE if prev is None else some(Sym(prev))})
+        table = {"mahf::lens::LensRef::get_ref": ok(Sym("cur")), CC + "EqualityChecker::eq": eqf}
+        cellv = Agg("adt", PREV, "Previous", [NONE if prev is None else some(Sym(prev))])
+        store = statemodel.Store(F, levels=1, auto=lambda ty, cellv=cellv: {0: cellv} if ty.startswith(PREV + "<") else None)
+        it = install(Interp(fn.body, chain(mk_oracle(table), store, coll_oracle, std_oracle), [me, Sym("problem"), Sym("state")], facts=F,
+                            inline=lambda k: statemodel.inline(k) or k.startswith(CC) or k.startswith("<" + CC), max_visits=10))
+        it.init_state = {}
+        store.install(it)
+        paths = it.run()
         want = True if prev is None else (not equal)
         for p in paths:
             if p.end != "return" or not (isinstance(p.ret, Agg) and p.ret.variant == "Ok") or p.ret.fields[0] is not want:
                 bad.append((prev, equal, "answers %s %s (expected %s)" % (p.end, p.ret, want)))
                 continue
-            after = p.env.get(home)
-            tag = after.fields[0].tag if isinstance(after, Agg) and after.variant == "Some" and isinstance(after.fields[0], Sym) else None
+            tys = [ty for ty in store.types() if ty.startswith(PREV + "<")]
+            after = store.value(p, tys[0], 0) if tys else None
+            inner = after.fields[0] if isinstance(after, Agg) and after.fields else None
+            tag = inner.fields[0].tag if isinstance(inner, Agg) and inner.variant == "Some" and isinstance(inner.fields[0], Sym) else None
             want_tag = "cur" if want else prev
             if tag != want_tag:
                 bad.append((prev, equal, "remembers %s afterwards (expected %s: the value it last reported)" % (tag, want_tag)))
@@ -169,9 +209,6 @@ def r4_change_of(ctx):
                 if p.end != "return" or p.ret is not want:
                     badc.append((a, b, "%s %s, expected %s" % (p.end, p.ret, want)))
         ctx.check(not badc, "C10.R4", f.key, "eq-means-equal", "eq(%s, %s)%s yields %s" % (badc[0][0] if badc else "", badc[0][1] if badc else "", " with threshold 2" if ti is not None else "", badc[0][2] if badc else ""), loc=f.loc())
-    ini = F.method(adt, "init", COND)
-    ins = [t["f"].get("gargs") for b, t in ini.body.calls() if t["f"].get("key") == "mahf::state::registry::StateRegistry::insert"]
-    ctx.check(len(ins) == 1 and ins[0][0].startswith(CC + "Previous<"), "C10.R4", ini.key, "init-forgets-previous", "init inserts %s" % ins, loc=ini.loc())
 
 
 def r5_random_chance(ctx):
